@@ -1019,6 +1019,29 @@ func resetMode(args []string) (mode string, rest []string, ok bool) {
 	return mode, rest, n <= 1
 }
 
+// hardBlocked: some path of the snapshot cannot be created in the working tree as it is (the path is a
+// directory, or one of its parent names is a file)
+func hardBlocked(o *Obs, es []ent) bool {
+	dirs := map[string]bool{}
+	for _, d := range o.Dirs {
+		dirs[d] = true
+	}
+	for _, e := range es {
+		p := string(e.path)
+		if dirs[p] {
+			return true
+		}
+		for i := 0; i < len(p); i++ {
+			if p[i] == '/' {
+				if _, isFile := o.Files[p[:i]]; isFile {
+					return true
+				}
+			}
+		}
+	}
+	return false
+}
+
 func orC08(t *Trans) []Viol {
 	if len(t.Args) == 0 || t.Args[0] != "reset" {
 		return nil
@@ -1056,8 +1079,12 @@ func orC08(t *Trans) []Viol {
 	}
 	br, _ := t.Pre.headBranch()
 	if t.Res.Class != "ok" {
-		// a blocked --hard (an untracked file occupies a directory name) is left unconstrained
+		// a blocked --hard (a file occupies a directory name of the snapshot, or a directory occupies a file
+		// name) is left unconstrained; any other failure of a valid --hard is a violation
 		if mode == "hard" {
+			if es, _, ok := t.Pre.commitSnapshot(target); ok && !hardBlocked(t.Pre, es) {
+				add("hard", fmt.Sprintf("valid reset --hard %s to %s failed although every path of the snapshot can be written: %s", rest[0], target[:7], clip(t.Res.Stderr, 160)))
+			}
 			return vs
 		}
 		add("target", fmt.Sprintf("valid reset --%s %s to %s was refused: %s", mode, rest[0], target[:7], clip(t.Res.Stderr, 120)))
